@@ -79,6 +79,24 @@ def scenarios(draw):
             "seed": draw(st.integers(0, 2 ** 20))}
 
 
+@st.composite
+def large_scenarios(draw):
+    """Payloads beyond typical buffer / preallocation / block thresholds."""
+    sc = draw(scenarios())
+    dtype = draw(st.sampled_from(["uint8", "uint16", "uint32", "float32"]))
+    cs = draw(st.sampled_from([32, 40, 64]))
+    sc.update({"kind": "file", "dtype": dtype, "channels": 1,
+               "encoding": draw(st.sampled_from(
+                   ["raw", "raw", "compressed_segmentation"]))
+               if dtype == "uint32" else "raw",
+               "chunk": [cs, cs, cs],
+               "size": [cs * 2 if draw(st.booleans()) else cs + 3, cs, cs],
+               "op": draw(st.sampled_from(["store_chunk", "store_chunk",
+                                           "overwrite_chunk", "fetch_chunk",
+                                           "store_file"]))})
+    return sc
+
+
 def build_info(sc):
     sharding = ds.sharding_dict(sc["bits"][0], sc["bits"][1], sc["bits"][2],
                                 sc["shard_enc"], sc["shard_enc"]) \
@@ -199,8 +217,10 @@ class Scenario:
         if op == "store_file":
             pio.accessor.store_file("mesh/5:0", b'{"fragments": ["a"]}',
                                     mime_type="application/json")
-            pio.accessor.store_file("mesh/frag", bytes(range(200)),
-                                    mime_type="application/octet-stream")
+            big = 70000 if sc["chunk"][0] >= 32 else 200
+            pio.accessor.store_file("mesh/frag", bytes(
+                (i * 7 + 1) % 251 + 1 for i in range(big)),
+                mime_type="application/octet-stream")
             return ("stored_files", None)
         if op == "fetch_chunk":
             keys = sorted(self.model)
@@ -390,6 +410,19 @@ def check_scenario(ctx, sc):
         S.close()
 
 
+def run_large(ctx, n):
+    def check(ctx, sc):
+        stats = check_scenario(ctx, sc)
+        if stats is None:
+            return
+        ctx.count("injections", stats["faults"])
+        ctx.count("crash_points", stats["crashes"])
+        ctx.record(sc, stats["faults"] + stats["crashes"] > 1,
+                   ["large", "op." + sc["op"], "enc." + sc["encoding"],
+                    "gzip" if sc["gzip"] else "nogzip"])
+    ctx.run_hypothesis(large_scenarios(), check, n)
+
+
 def run(ctx, n):
     def check(ctx, sc):
         stats = check_scenario(ctx, sc)
@@ -497,6 +530,8 @@ def replay(ctx, case):
 
 SUBS = [
     Sub("fs_faults", run, replay, quick=140, thorough=2500, min_per_shard=4),
+    Sub("fs_large", run_large, replay, quick=14, thorough=300,
+        min_per_shard=2),
     Sub("http_faults", run_http, replay, quick=40, thorough=800,
         min_per_shard=4),
 ]
